@@ -1396,7 +1396,10 @@ func (g *gen) unwrapMapValue(m *Message, fq string, c *fieldCtx) {
 	if g.feature[fq] != "" && (!g.p.MultiFeature || g.avoid("multi_feature")) {
 		return
 	}
-	if !simpleSiblings(m) && g.avoid("unwrap_container_siblings") {
+	if !compilableSiblings(m) && g.avoid("unwrap_container_siblings") {
+		return
+	}
+	if !simpleSiblings(m) && g.avoid("unwrap_container_siblings_json") {
 		return
 	}
 	f := &Field{Name: g.fieldName(c.used, c.multiOK), Number: g.nextNum(c), Kind: KMessage, TypeRef: g.wrapperMessage(), Card: Map, MapKey: KString}
@@ -1407,6 +1410,17 @@ func (g *gen) unwrapMapValue(m *Message, fq string, c *fieldCtx) {
 		g.feature[fq] += "+unwrap_map_value"
 	}
 	g.tagf("feat:unwrap_map_value")
+}
+
+// compilableSiblings reports whether no field of m is one of the shapes for which the unwrap map-value
+// container emits code that does not compile (KF-C13-6): proto3 optional, oneof member, Timestamp.
+func compilableSiblings(m *Message) bool {
+	for _, f := range m.Fields {
+		if f.Card == Optional || f.Oneof != "" || f.Kind == KTimestamp {
+			return false
+		}
+	}
+	return true
 }
 
 // simpleSiblings reports whether every field of m is a singular implicit-presence string, bool or
@@ -1433,7 +1447,7 @@ func (g *gen) unwrapScalarKind() Kind {
 	if g.p.Stratified {
 		// every scalar kind in turn: the emitted element decoders have one branch per kind
 		g.wrapSeq++
-		return ScalarKinds[(g.stratum*5+g.wrapSeq)%len(ScalarKinds)]
+		return ScalarKinds[(g.stratum+g.wrapSeq*4)%len(ScalarKinds)]
 	}
 	return g.scalarKind()
 }
